@@ -125,6 +125,27 @@ theorem fixed_degree_safe (P : Params) (ub : Nat) :
     Bool.and_true, Bool.and_eq_true, decide_eq_true_eq, if_true]
   omega
 
+/-- the guard of the repaired `fixed_degree_isogeny` (as coded) passes exactly when every access is in range — for
+EVERY bit size of u, both values of `small`, any level constants -/
+theorem fixed_degree_guard_iff_safe (P : Params) (small : Bool) (ub : Nat) :
+    fixedDegGuardPasses P small ub = true ↔ fixedDegSafe P small ub = true := by
+  unfold fixedDegGuardPasses fixedDegSafe fixedDegAccesses fixedDegBook Access.ok
+  cases small <;>
+    simp only [List.all_cons, List.all_nil, Bool.and_true, Bool.and_eq_true, Bool.not_eq_true', Bool.or_eq_false_iff,
+      decide_eq_true_eq, decide_eq_false_iff_not, if_true, if_false, Bool.false_eq_true] <;> omega
+
+/-- **fixed_degree_isogeny never misbehaves** (guarded code): every u gives success or explicit failure; success implies
+that all accesses were in range -/
+theorem fixed_degree_never_bad (P : Params) (small : Bool) (ub : Nat) (ri : Bool) :
+    (∀ s, flowFixedDeg P Shape.allChecked small ub ri ≠ .bad s) ∧
+    (flowFixedDeg P Shape.allChecked small ub ri = .ok → fixedDegSafe P small ub = true ∧ ri = false) := by
+  have h := fixed_degree_guard_iff_safe P small ub
+  unfold flowFixedDeg
+  cases hg : fixedDegGuardPasses P small ub
+  · simp [Shape.allChecked]
+  · have hs := h.1 hg
+    cases ri <;> simp [Shape.allChecked, hs]
+
 theorem clapotis_safe (P : Params) (g : Nat) : clapotisSafe P g = true ↔ (g + 2 < P.rows ∧ g + 1 ≤ P.f) := by
   unfold clapotisSafe clapotisRow
   simp only [Bool.and_eq_true]
@@ -181,6 +202,16 @@ theorem levels_fixed_degree :
     (P3.f ≤ P3.pbits + 17 ∧ P3.f ≤ P3.rows + P3.pbits + 14 ∧ fixedLo P3 = 24 ∧ fixedHi P3 = 199) ∧
     (P5.f ≤ P5.pbits + 17 ∧ P5.f ≤ P5.rows + P5.pbits + 14 ∧ fixedLo P5 = 22 ∧ fixedHi P5 = 260) := by
   decide +kernel
+
+/-- negation for the unguarded code: a 17-bit u at level 1 (u = 65537) indexes row -1 -/
+theorem fixed_degree_unguarded_witness (S : Shape) (h : S.fixedDegGuard = false) :
+    flowFixedDeg P1 S true 17 false = .bad "fixed_degree_isogeny: length without strategy row / negative doubling count / u >= 2^length" ∧
+    (fixedDegBook P1 true 17).row = -1 := by
+  have hs : fixedDegSafe P1 true 17 = false := by decide +kernel
+  refine ⟨by simp [flowFixedDeg, h, hs], by decide +kernel⟩
+
+example : flowFixedDeg P1 Shape.allChecked true 17 false = .fail ∧ flowFixedDeg P1 Shape.allChecked true 120 false = .ok ∧
+    flowFixedDeg P1 Shape.allChecked true 134 false = .fail := by decide +kernel
 
 /-! ## control flow -/
 
